@@ -12,6 +12,7 @@ import (
 	"go/constant"
 	"go/token"
 	"go/types"
+	"strings"
 
 	"golang.org/x/tools/go/ssa"
 )
@@ -166,6 +167,20 @@ func (f c19LenFact) satisfies(r c19LenReq) bool {
 	return false
 }
 
+// contradicts: the known interval excludes every admissible length.
+func (f c19LenFact) contradicts(r c19LenReq) bool {
+	if !f.Known {
+		return false
+	}
+	switch r.Kind {
+	case c19LenExact:
+		return f.Lo > r.N || (f.Hi >= 0 && f.Hi < r.N)
+	case c19LenAtLeast:
+		return f.Hi >= 0 && f.Hi < r.N
+	}
+	return false
+}
+
 func (f c19LenFact) String() string {
 	switch {
 	case f.Known && f.Lo == f.Hi:
@@ -183,11 +198,12 @@ func (f c19LenFact) String() string {
 }
 
 type c19Len struct {
-	c     *Ctx
-	n     *c19Nil
-	taint *c19Taint
-	retM  map[*ssa.Function]*c19LenFact
-	busy  map[*ssa.Function]bool
+	c            *Ctx
+	n            *c19Nil
+	fieldStores  map[*types.Var][]*ssa.Store
+	fieldEscapes map[*types.Var]bool
+	retM         map[*ssa.Function]*c19LenFact
+	busy         map[*ssa.Function]bool
 }
 
 func c19IsLenOf(x ssa.Value) (ssa.Value, bool) {
@@ -418,6 +434,13 @@ func (l *c19Len) fact(v ssa.Value, at ssa.Instruction, depth int, seen map[ssa.V
 		if call, ok := x.Tuple.(*ssa.Call); ok {
 			structural = l.callFact(call, x.Index, at, depth, seen)
 		}
+	case *ssa.UnOp:
+		// field of a module struct: every store to that field in the module has the fact
+		if x.Op == token.MUL {
+			if fa, ok := x.X.(*ssa.FieldAddr); ok {
+				structural = l.fieldFact(fa, depth, seen)
+			}
+		}
 	case *ssa.Parameter:
 		fn := x.Parent()
 		idx := -1
@@ -457,6 +480,64 @@ func (l *c19Len) fact(v ssa.Value, at ssa.Instruction, depth int, seen map[ssa.V
 		}
 	}
 	return c19FactJoin(structural, l.testFacts(v, at))
+}
+
+// fieldFact: the length invariant of a byte-slice field of a module struct: the meet of the
+// facts of every value stored into that field anywhere in the module (composite literals in
+// the constructors, assignments); none when the field's address escapes or nothing is stored.
+func (l *c19Len) fieldFact(fa *ssa.FieldAddr, depth int, seen map[ssa.Value]bool) c19LenFact {
+	fv := c19FieldVar(fa)
+	if fv == nil || fv.Pkg() == nil || !strings.HasPrefix(fv.Pkg().Path(), modulePath) || c19IsProtoMessage(l.n.w, fa.X.Type()) {
+		return c19LenFact{}
+	}
+	if l.fieldStores == nil {
+		l.fieldStores = map[*types.Var][]*ssa.Store{}
+		l.fieldEscapes = map[*types.Var]bool{}
+		for _, fn := range l.c.W.ModFuncs {
+			for _, b := range fn.Blocks {
+				for _, in := range b.Instrs {
+					a, ok := in.(*ssa.FieldAddr)
+					if !ok || !c19IsByteSlice(a.Type().Underlying().(*types.Pointer).Elem()) {
+						continue
+					}
+					v := c19FieldVar(a)
+					if v == nil || a.Referrers() == nil {
+						continue
+					}
+					for _, r := range *a.Referrers() {
+						switch u := r.(type) {
+						case *ssa.Store:
+							if u.Addr == ssa.Value(a) {
+								l.fieldStores[v] = append(l.fieldStores[v], u)
+							} else {
+								l.fieldEscapes[v] = true
+							}
+						case *ssa.UnOp, *ssa.DebugRef:
+						default:
+							l.fieldEscapes[v] = true
+						}
+					}
+				}
+			}
+		}
+	}
+	stores := l.fieldStores[fv]
+	if l.fieldEscapes[fv] || len(stores) == 0 {
+		return c19LenFact{}
+	}
+	out, first := c19LenFact{}, true
+	for _, st := range stores {
+		f := l.fact(st.Val, st, depth+1, seen)
+		if first {
+			out, first = f, false
+		} else {
+			out = c19FactMeet(out, f)
+		}
+	}
+	if out.any() {
+		out.Why = fmt.Sprintf("every one of the %d stores to field %s in the module has %s", len(stores), fv.Name(), out.String())
+	}
+	return out
 }
 
 // callFact: known-length results of library functions and of module functions.
@@ -556,16 +637,46 @@ func c19IsProtoMessage(w *World, t types.Type) bool {
 	return false
 }
 
-// untrusted: why the bytes of v are outside the control of the module ("" when no reason is known).
+// untrustedCall: results whose length the data source decides (whole-stream reads), and results
+// of module functions that return untrusted bytes.
+func (l *c19Len) untrustedCall(call *ssa.Call, idx int, depth int, seen map[ssa.Value]bool) string {
+	cc := call.Common()
+	switch key := calleeKey(cc); key {
+	case "io.ReadAll", "io/ioutil.ReadAll", "os.ReadFile", "io/ioutil.ReadFile":
+		if idx == 0 {
+			return "the result of " + key + ", whose length the data source decides"
+		}
+	}
+	f := staticCallee(cc)
+	if f == nil || f.Blocks == nil || depth > 3 {
+		return ""
+	}
+	for _, r := range returnsOf(f) {
+		rr := retResults(r)
+		if idx < len(rr) {
+			if s := l.untrusted(rr[idx], depth+1, seen); s != "" {
+				return s + ", returned by " + fnName(f)
+			}
+		}
+	}
+	return ""
+}
+
+// untrusted: why the length of v is outside the control of the module ("" when no reason is
+// known). Decided from the backward slice of v only (fields of protobuf messages, which include
+// every request message; arguments of the exported cryptoutil helpers; whole-stream reads;
+// through slicing, conversions, phis, module callees and the arguments of module callers): it
+// does not depend on which other code happens to be influenced by a request.
 func (l *c19Len) untrusted(v ssa.Value, depth int, seen map[ssa.Value]bool) string {
 	if v == nil || depth > 4 || seen[v] {
 		return ""
 	}
 	seen[v] = true
-	if l.taint.t[v] {
-		return "bytes derived from a handler's request"
-	}
 	switch x := v.(type) {
+	case *ssa.Extract:
+		if call, ok := x.Tuple.(*ssa.Call); ok {
+			return l.untrustedCall(call, x.Index, depth, seen)
+		}
 	case *ssa.UnOp:
 		if x.Op == token.MUL {
 			if fa, ok := x.X.(*ssa.FieldAddr); ok {
@@ -577,6 +688,9 @@ func (l *c19Len) untrusted(v ssa.Value, depth int, seen map[ssa.Value]bool) stri
 	case *ssa.Call:
 		if recv, f, ok := c19Getter(x); ok && c19IsProtoMessage(l.n.w, recv.Type()) {
 			return "field " + f + " of a protobuf message (decoded from the wire or from storage)"
+		}
+		if _, isTuple := x.Type().(*types.Tuple); !isTuple {
+			return l.untrustedCall(x, 0, depth, seen)
 		}
 	case *ssa.Slice:
 		return l.untrusted(x.X, depth, seen)
@@ -641,7 +755,8 @@ func c19ByteArg(cc *ssa.CallCommon, ord int) ssa.Value {
 }
 
 func c19RunD6(c *Ctx, n *c19Nil, taint *c19Taint, fns []*ssa.Function) {
-	l := &c19Len{c: c, n: n, taint: taint, retM: map[*ssa.Function]*c19LenFact{}, busy: map[*ssa.Function]bool{}}
+	_ = taint // D6 no longer depends on the request-taint fixpoint of D1
+	l := &c19Len{c: c, n: n, retM: map[*ssa.Function]*c19LenFact{}, busy: map[*ssa.Function]bool{}}
 	nSites, nEstablished, nInternal := 0, 0, 0
 	judge := func(fn *ssa.Function, in ssa.Instruction, label string, k int, arg ssa.Value, req c19LenReq) {
 		nSites++
@@ -665,10 +780,14 @@ func c19RunD6(c *Ctx, n *c19Nil, taint *c19Taint, fns []*ssa.Function) {
 			c.ok("D6", construct, posOf(in), "%s needs %s for its %s; established on every path: %s (%s)", label, need, req.What, f.String(), f.Why)
 			return
 		}
+		if f.contradicts(req) {
+			c.fail("D6", construct, posOf(in), "%s panics unless its %s has %s; here the length is known and wrong on some path: %s (%s): the call panics whenever it is reached", label, req.What, need, f.String(), f.Why)
+			return
+		}
 		why := l.untrusted(arg, 0, map[ssa.Value]bool{})
 		if why == "" {
 			nInternal++
-			c.ok("D6", construct, posOf(in), "%s needs %s for its %s; not established inside %s (%s), but the bytes are neither request data, nor a protobuf message field, nor the argument of an exported helper", label, need, req.What, fnName(fn), f.String())
+			c.ok("D6", construct, posOf(in), "%s needs %s for its %s; not established inside %s (%s), but the bytes are neither a protobuf message field (request data included), nor the argument of an exported helper, nor a whole-stream read", label, need, req.What, fnName(fn), f.String())
 			return
 		}
 		c.fail("D6", construct, posOf(in), "%s panics unless its %s has %s; here it receives %s and on some path only this is known: %s; a malformed input crashes the process instead of being answered with an error", label, req.What, need, why, f.String())
